@@ -466,7 +466,7 @@ def filter_specs(draw, spec):
     parallels = [el for el in m if el["kind"] == "parallel"]
     kinds = ["generic", "generic", "generic", "absent-only"]
     if parallels:
-        kinds += ["all-of-parallel", "all-of-parallel", "some-of-parallel"]
+        kinds += ["all-of-parallel", "some-of-parallel"]
     kind = draw(st.sampled_from(kinds))
     mode = draw(st.sampled_from(["exclude", "include"]))
     if kind == "generic":
